@@ -7,10 +7,12 @@ def collect(ctx, rand_n):
     ctx.tlc("MCAlphabet", "MCAlphabet.cfg", workers=8)
     ctx.build(gofasta=False)
     vecs = kernel.tlc_gen(ctx, "GenUpDown", "GenUpDown.cfg" if ctx.quick else "GenUpDown_thorough.cfg", timeout=3000)
-    if ctx.quick:
-        small = [v for v in vecs if not v["id"].startswith(("size-", "total-"))]
-        big = [v for k, v in enumerate(v for v in vecs if v["id"].startswith(("size-", "total-"))) if (k + ctx.seed) % 12 == 0]
-        vecs = small + big
+    # the size x supply space is covered completely by MC_UpDown; the real code is replayed on a seed-dependent sample of it
+    # (quick 1/16 of (0..2)^4 x (0..2)^4, thorough 1/10 of (0..3)^4 x (0..3)^4; about 0.1 s of TLC validation per vector)
+    mod = 16 if ctx.quick else 10
+    small = [v for v in vecs if not v["id"].startswith(("size-", "total-"))]
+    big = [v for k, v in enumerate(v for v in vecs if v["id"].startswith(("size-", "total-"))) if (k + ctx.seed) % mod == 0]
+    vecs = small + big
     vecs += kernel.rand_vectors(ctx, "updown", rand_n)
     return kernel.run_vectors(ctx, "updown", vecs, timeout=6000)
 
@@ -27,13 +29,13 @@ def run(ctx, prefix, rand_n):
     rows, fails, _ = kernel.validate_obs(ctx, "ObsUpDown", "ObsUpDown.cfg", obs, tag="updown", timeout=6000)
     ctx.failures = [f for f in ctx.failures if f["clause"].startswith(prefix) or f["clause"] in ("panic", "timeout")]
     kernel.account(ctx, rows, nontrivial)
-    ctx.exhaustive = not ctx.quick
+    ctx.exhaustive = False      # the replay samples the size x supply space (the model check of balance() is exhaustive)
     return rows
 
 
 RULE = ("TLC checks the tract scanner against Tracts (all rows over {same,snp,ambiguous} of length <=7/8, with the reconstruction theorem), balance() against the "
         "relational EvenFill for every requested/supplied size vector in (0..2)^4 (thorough (0..3)^4) x no-fill and every --size-total, and the push map "
         "against the k smallest distances; the same size/supply points are rendered as real alignments (targets of known bin, distance, ambiguity, "
-        "interleaved in the file) and replayed (quick: a seed-dependent 1/12 of the 14k points; thorough: all), plus --dist limits, --dist-push 1..3, "
+        "interleaved in the file) and replayed on a seed-dependent sample (quick 1/16 of 14k points, thorough 1/10 of 134k), plus --dist limits, --dist-push 1..3, "
         "--threshold-pair 0..1, --threshold-target, --ignore, list and --table output, 1-3 queries, all four csv/fasta input combinations; seeded "
         "random alignments; non-trivial = at least one target reported")
